@@ -402,11 +402,14 @@ fn drive_pattern(p: &str, names: &[String], do_match: bool) -> bool {
                 // shortcut that looks at fixed positions of both strings meets a
                 // name that ends exactly there)
                 let pc: Vec<char> = p.chars().collect();
+                // (under Miri every match of a wide alternation costs seconds:
+                // three such candidates there, two dozen natively)
+                let max_cut = if cfg!(miri) { 3 } else { 24 };
                 let mut cut = 0;
                 for i in 0..pc.len() {
                     if i == 0 || matches!(pc[i - 1], '{' | ',' | '}') {
                         for l in 1..=3usize {
-                            if i + l <= pc.len() && cut < 24 {
+                            if i + l <= pc.len() && cut < max_cut {
                                 let n: String = pc[i..i + l].iter().collect();
                                 let _ = pat.matches(&n);
                                 let _ = pat.best_match(&n, &n);
